@@ -133,6 +133,9 @@ type PathResult struct {
 }
 
 func (e *Exec) stop(kind, format string, a ...interface{}) {
+	if os.Getenv("VERIF_STACK") != "" && kind != "done" {
+		fmt.Fprintf(os.Stderr, "STOP %s: %s at %s\n", kind, fmt.Sprintf(format, a...), e.where())
+	}
 	panic(pathStop{kind, fmt.Sprintf(format, a...)})
 }
 
@@ -689,6 +692,19 @@ func (e *Exec) solveOpen(asserts []*Term, declare []*Term, upgrade bool) string 
 		// Vacuity guard: a bounded "unsat" of pc ∧ extra means something only if
 		// the pc part itself has models within the string bound; otherwise the
 		// bound is too small for this path and the unbounded encoding must decide.
+		if e.nPC > 0 && e.nPC == nOrig && !e.inGuard {
+			// the query IS the path condition: no model within the string bound says nothing
+			// about longer strings -- only the unbounded encoding may call the path infeasible
+			e.solver.Pop()
+			e.res.BoundTooSmall++
+			r2 := stageA(e.h.QueryTimeout)
+			if r2 != "unknown" {
+				e.res.StageA++
+			} else {
+				e.res.Inconcl = append(e.res.Inconcl, fmt.Sprintf("string bound %d admits no model of the path condition and the unbounded query is unknown at %s", e.h.StrLen, e.where()))
+			}
+			return r2
+		}
 		if e.nPC > 0 && e.nPC < nOrig && !e.inGuard {
 			e.solver.Pop()
 			e.inGuard = true
@@ -1303,6 +1319,9 @@ func (e *Exec) check(kind, id, msg string, cond *Term) {
 		return
 	}
 	// sat: extract the model while the scope is open
+	if os.Getenv("VERIF_STACK") != "" {
+		fmt.Fprintf(os.Stderr, "OBLIGATION-SAT %s at %s\n", id, e.where())
+	}
 	ce := e.buildCE(kind, id, msg)
 	// known-finding discrimination: which tags hold in this model, and is the
 	// violation possible with all known tags false?
@@ -1375,6 +1394,9 @@ func (e *Exec) modelTags() []string {
 
 func (e *Exec) recordCE(kind, id, msg string, cond *Term) {
 	e.res.Obligations++
+	if os.Getenv("VERIF_STACK") != "" {
+		fmt.Fprintf(os.Stderr, "RECORD-CE %s %s at %s\n", kind, id, e.where())
+	}
 	if e.openModelQuery(nil) == "sat" {
 		ce := e.buildCE(kind, id, msg)
 		ce.Tags = e.modelTags()
